@@ -506,11 +506,18 @@ class Arr(object):
     def min(self):
         return min_(self)
 
-    def all(self):
-        return all_(self)
+    def all(self, axis=None):
+        if axis is not None and self.ndim == 2 and concrete_int(axis) in (1, -1):
+            return Arr.new([_plain(all_(self._row(i))) for i in range(self.shape[0])], (self.shape[0],), BOOL)
+        return all_(self, axis=axis)
 
-    def any(self):
-        return any_(self)
+    def any(self, axis=None):
+        if axis is not None and self.ndim == 2 and concrete_int(axis) in (1, -1):
+            return Arr.new([_plain(any_(self._row(i))) for i in range(self.shape[0])], (self.shape[0],), BOOL)
+        return any_(self, axis=axis)
+
+    def nonzero(self):
+        return nonzero(self)
 
     def argsort(self):
         return argsort(self)
@@ -1221,6 +1228,28 @@ def arange(*a, **k):
     return delegate("arange", *a, **k)
 
 
+def flatnonzero(x):
+    if not isinstance(x, Arr):
+        x = array(x)
+    if x.ndim != 1:
+        x = x.reshape(-1)
+    return where(x.astype(BOOL) if x.dtype != BOOL else x)[0]
+
+
+def nonzero(x):
+    if not isinstance(x, Arr):
+        x = array(x)
+    return where(x.astype(BOOL) if x.dtype != BOOL else x)
+
+
+def count_nonzero(x, axis=None):
+    if axis is not None:
+        return delegate("count_nonzero", x, axis=axis)
+    if not isinstance(x, Arr):
+        x = array(x)
+    return sum_(x.astype(BOOL) if x.dtype != BOOL else x)
+
+
 def dot(a, b):
     if not isinstance(a, Arr):
         a = array(a)
@@ -1405,7 +1434,7 @@ def make_module(random_impl=None):
     """the object that `import numpy` / `from numpy import ...` resolves to inside loaded modules."""
     m = types.ModuleType("numpy")
     m.__dict__.update(dict(
-        array=array, asarray=array, arange=arange, dot=dot, zeros=zeros, ones=ones, zeros_like=zeros_like, where=where, sum=sum_, max=max_,
+        array=array, asarray=array, arange=arange, dot=dot, flatnonzero=flatnonzero, nonzero=nonzero, count_nonzero=count_nonzero, zeros=zeros, ones=ones, zeros_like=zeros_like, where=where, sum=sum_, max=max_,
         min=min_, amax=max_, amin=min_, argmax=argmax, argsort=argsort, all=all_, any=any_, abs=abs_, absolute=abs_,
         unique=unique, intersect1d=intersect1d, union1d=union1d, median=median, log=log, log2=log2,
         ndarray=Arr, int64=_rnp.int64, float64=_rnp.float64, bool_=_rnp.bool_, pi=_rnp.pi, e=_rnp.e, inf=_rnp.inf,
